@@ -226,6 +226,18 @@ def execute(case, sched=None):
                         (r,) = comp([rt + lder])
                         counters["roundtrips"] += 1
                         judge("roundtrip: same-process unpickled + local", r, want + lnp * 2, vid, False)
+                        # ... and with the very array it is a copy of (shared ancestry through another copy of the
+                        # same nodes): accepted without the round trip (x + x), so it must be accepted with it
+                        try:
+                            zz = rt + twin.values[vid]
+                        except Exception as e:  # noqa: BLE001
+                            violations.append(dict(cls=f"roundtrip_combination_refused:{type(e).__name__}",
+                                                   msg=f"value {vid}: unpickled copy + its original refused while building: {type(e).__name__}: {str(e)[:160]}",
+                                                   name_collision=False))
+                        else:
+                            (r,) = comp([zz])
+                            counters["roundtrips_with_original"] = counters.get("roundtrips_with_original", 0) + 1
+                            judge("roundtrip: same-process unpickled + its original", r, want + want, vid, False)
                     counters["name_collisions"] = counters.get("name_collisions", 0) + int(collide)
                 except (H.SimHang, H.SimStepLimit) as e:
                     violations.append(dict(cls="hang", msg=str(e)))
